@@ -730,3 +730,337 @@ Proof.
     apply N.ltb_lt in A. pose proof (l_own _ _ _ LI k r _ G IN (code_inpool c fam a F A)) as L.
     unfold amem in B. rewrite L in B. discriminate.
 Qed.
+
+(* ---------------------------------------------------------------- T3 in full: invariant 2 over histories *)
+Definition pools_small (c : cfg) : Prop :=
+  c_n4 c <= static_base /\ c_n6 c <= static_base /\ c_npd c <= static_base.
+
+Record inv2 (c : cfg) (s : st) : Prop := {
+  j_own : forall k r ad, aget k (live s) = Some r -> In ad (addrs r) -> inpool c ad = true ->
+            aget ad (leases s) = Some k;
+  k_store : forall k r, aget k (store s) = Some r ->
+            exists r', aget k (live s) = Some r' /\ addrs r' = addrs r;
+  k_pend : forall t r, aget t (pend s) = Some r -> effective c s (s_id r) t = true ->
+            exists r', aget (s_id r) (live s) = Some r' /\ addrs r' = addrs r }.
+
+Lemma inv2_init c : inv2 c init.
+Proof. constructor; cbn; intros; discriminate. Qed.
+
+Lemma effective_eq c s s' i t :
+  aget i (applied s') = aget i (applied s) -> effective c s' i t = effective c s i t.
+Proof. unfold effective. intros ->. auto. Qed.
+
+Lemma release_all_notin ads : forall ls x, ~ In x ads -> aget x (release_all ls ads) = aget x ls.
+Proof.
+  induction ads as [|a ads IH]; intros ls x NI; cbn [release_all fold_left]; auto.
+  fold (release_all (aremove a ls) ads). rewrite IH.
+  - apply aget_aremove_neq. intro; subst. apply NI. left; auto.
+  - intro. apply NI. right; auto.
+Qed.
+
+Lemma static_not_inpool c f k : pools_small c -> f < 3 -> inpool c (code f (static_base + k)) = false.
+Proof.
+  intros (P4 & P6 & PD) F. unfold inpool, code.
+  assert (E1 : (3 * (static_base + k) + f) / 3 = static_base + k)
+    by (symmetry; apply (N.div_unique (3 * (static_base + k) + f) 3 (static_base + k) f); lia).
+  assert (E2 : (3 * (static_base + k) + f) mod 3 = f)
+    by (symmetry; apply (N.mod_unique (3 * (static_base + k) + f) 3 (static_base + k) f); lia).
+  rewrite E1, E2. apply N.ltb_ge. unfold fam_size.
+  destruct f as [|[p|p|]]; lia.
+Qed.
+
+Lemma take_addr_spec c own ls f sp o a ls' :
+  pools_small c -> f < 3 -> take_addr c own ls f sp o = Some (a, ls') ->
+  (forall x o', aget x ls = Some o' -> aget x ls' = Some o') /\
+  (forall x o', aget x ls' = Some o' -> aget x ls = Some o' \/ o' = own) /\
+  (forall a', a = Some a' -> inpool c (code f a') = true -> aget (code f a') ls' = Some own).
+Proof.
+  intros PS F H. unfold take_addr in H. destruct sp.
+  - inversion H; subst. repeat split; auto. intros; discriminate.
+  - destruct (alloc_ok c ls f o) eqn:OK; try discriminate. destruct o as [a0|].
+    + inversion H; subst; clear H. unfold alloc_ok in OK. apply andb_prop in OK. destruct OK as (_ & NM).
+      unfold amem in NM. destruct (aget (code f a0) ls) eqn:G; try discriminate.
+      repeat split.
+      * intros x o' H. rewrite aget_aput. eqb_case x (code f a0); [congruence|auto].
+      * intros x o'. rewrite aget_aput. eqb_case x (code f a0); [intros H; inversion H; auto|auto].
+      * intros a' E _. inversion E; subst. apply aget_aput_eq.
+    + inversion H; subst. repeat split; auto. intros; discriminate.
+  - assert (EA : a = Some (static_base + k)) by congruence. assert (EL : ls' = ls) by congruence.
+    clear H. subst a ls'. repeat split; auto. intros a' E IP.
+    assert (E' : a' = static_base + k) by congruence. subst a'.
+    rewrite static_not_inpool in IP; auto. discriminate.
+Qed.
+
+Lemma In_addrs r ad :
+  In ad (addrs r) ->
+  (exists a, s_v4 r = Some a /\ ad = code 0 a) \/ (exists a, s_v6 r = Some a /\ ad = code 1 a) \/
+  (exists a, s_pd r = Some a /\ ad = code 2 a).
+Proof.
+  unfold addrs, optc. intros H. rewrite !in_app_iff in H.
+  destruct (s_v4 r), (s_v6 r), (s_pd r); cbn in H; intuition eauto.
+Qed.
+
+Lemma do_new_inv2 c s n o4 o6 opd s' o :
+  pools_small c -> inv1 s -> inv2 c s -> do_new c s n o4 o6 opd = Some (s', o) -> inv2 c s'.
+Proof.
+  intros PS I1 I2 H. unfold do_new in H.
+  destruct (nmem (n_id n) (used s)) eqn:U; [inversion H; subst; auto|].
+  destruct (take_addr c (n_id n) (leases s) 0 (n_a4 n) o4) as [[a4 l1]|] eqn:T4; try discriminate.
+  destruct (take_addr c (n_id n) l1 1 (n_a6 n) o6) as [[a6 l2]|] eqn:T6; try discriminate.
+  destruct (take_addr c (n_id n) l2 2 (n_apd n) opd) as [[apd l3]|] eqn:TP; try discriminate.
+  assert (NU : ~ In (n_id n) (used s)) by (rewrite <- nmem_In; congruence).
+  apply take_addr_spec in T4; [|auto|lia]. apply take_addr_spec in T6; [|auto|lia].
+  apply take_addr_spec in TP; [|auto|lia].
+  destruct T4 as (M4 & _ & O4). destruct T6 as (M6 & _ & O6). destruct TP as (MP & _ & OP).
+  set (r0 := {| s_id := n_id n; s_bound := n_bound n;
+                s_appr := match c_proto c with IPoE => true | PPPoE => false end && n_appr n;
+                s_crea := n_crea n;
+                s_v6b := match c_proto c with IPoE => true | PPPoE => false end && n_v6b n;
+                s_v4 := a4; s_v6 := a6; s_pd := apd; s_l4 := n_l4 n; s_b4 := n_b4 n; s_l6 := n_l6 n;
+                s_b6 := n_b6 n; s_stamp := None; s_swif := 0 |}) in *.
+  assert (OWN : forall r, addrs r = addrs r0 -> forall ad, In ad (addrs r) -> inpool c ad = true ->
+                aget ad l3 = Some (n_id n)).
+  { intros r E ad IN IP. rewrite E in IN. apply In_addrs in IN. cbn [r0 s_v4 s_v6 s_pd] in IN.
+    destruct IN as [(a & E1 & E2)|[(a & E1 & E2)|(a & E1 & E2)]]; subst ad.
+    - apply MP, M6, O4; auto.
+    - apply MP, O6; auto.
+    - apply OP; auto. }
+  assert (REST : forall (r : sess) d nx, addrs r = addrs r0 ->
+            inv2 c {| store := store s; pend := pend s; tick := tick s; applied := applied s;
+                      live := aput (n_id n) r (live s); leases := l3; dp := d; dpnext := nx;
+                      released := released s; used := n_id n :: used s |}).
+  { intros r d nx EA. destruct I1, I2. constructor; cbn [store live pend leases applied].
+    - intros k r1 ad. rewrite aget_aput. eqb_case k (n_id n).
+      + intros H1. inversion H1; subst. apply OWN; auto.
+      + intros H1 IN IP. apply MP, M6, M4. eauto.
+    - intros k r1 G. destruct (k_store0 _ _ G) as (r' & GL & E). exists r'. split; auto.
+      rewrite aget_aput_neq; auto. intro; subst. apply NU. eauto.
+    - intros t r1 G EF. erewrite effective_eq in EF by reflexivity.
+      destruct (k_pend0 _ _ G EF) as (r' & GL & E). exists r'. split; auto.
+      rewrite aget_aput_neq; auto. intro E2. apply NU. rewrite <- E2. eauto. }
+  destruct (n_crea n).
+  - destruct (dp_add (n_id n) (dp s) (dpnext s)) as [[sw d1] nx1]. inversion H; subst s' o; clear H.
+    apply REST. reflexivity.
+  - inversion H; subst s' o; clear H. apply REST. reflexivity.
+Qed.
+
+Lemma do_ck_inv2 c s i : inv1 s -> inv2 c s -> inv2 c (fst (do_ck s i)).
+Proof.
+  intros I1 I2. unfold do_ck. destruct (aget i (live s)) as [r|] eqn:L; auto. destruct I1, I2.
+  constructor; cbn [fst store live pend leases applied].
+  - intros k r1 ad. rewrite aget_aput. eqb_case k i; [|eauto].
+    intros H. inversion H; subst. rewrite set_stamp_addrs. eauto.
+  - intros k r1 G. destruct (k_store0 _ _ G) as (r' & GL & E). rewrite aget_aput. eqb_case k i; [|eauto].
+    rewrite L in GL. inversion GL; subst. eexists; split; eauto.
+  - intros t r1 G EF. erewrite effective_eq in EF by reflexivity. apply aget_snoc in G.
+    destruct G as [G|[_ G]].
+    + destruct (k_pend0 _ _ G EF) as (r' & GL & E). rewrite aget_aput. eqb_case (s_id r1) i; [|eauto].
+      rewrite L in GL. inversion GL; subst. eexists; split; eauto.
+    + subst r1. rewrite set_stamp_id, (i_live_id0 _ _ L), aget_aput_eq. eauto.
+Qed.
+
+Lemma effective_ord c s i t :
+  c_ordered c = true ->
+  effective c s i t = match aget i (applied s) with Some a => a <? t | None => true end.
+Proof. intros O. unfold effective. rewrite O. auto. Qed.
+
+Lemma do_cks_inv2 c s i : c_ordered c = true -> inv1 s -> inv2 c s -> inv2 c (fst (do_cks s i)).
+Proof.
+  intros O I1 I2. unfold do_cks. destruct (aget i (live s)) as [r|] eqn:L; auto. destruct I1, I2.
+  constructor; cbn [fst store live pend leases applied].
+  - intros k r1 ad. rewrite aget_aput. eqb_case k i; [|eauto].
+    intros H. inversion H; subst. rewrite set_stamp_addrs. eauto.
+  - intros k r1. rewrite !aget_aput. eqb_case k i; [intros H; inversion H; eauto|eauto].
+  - intros t r1 G EF. destruct (N.eq_dec (s_id r1) i) as [E|NE].
+    + exfalso. rewrite effective_ord in EF by auto. cbn [applied] in EF. rewrite E, aget_aput_eq in EF.
+      apply i_pend_tick0 in G. apply N.ltb_lt in EF. lia.
+    + erewrite effective_eq in EF by (cbn [applied]; apply aget_aput_neq; auto).
+      destruct (k_pend0 _ _ G EF) as (r' & GL & E). rewrite aget_aput_neq; eauto.
+Qed.
+
+Lemma do_rel_inv2 c s i : c_ordered c = true -> inv1 s -> inv2 c s -> inv2 c (fst (do_rel s i)).
+Proof.
+  intros O I1 I2. unfold do_rel. destruct (aget i (live s)) as [r|] eqn:L; auto. destruct I1, I2.
+  constructor; cbn [fst store live pend leases applied].
+  - intros k r1 ad. rewrite aget_aremove. eqb_case k i; [discriminate|]. intros G IN IP.
+    rewrite release_all_notin; eauto. intros IN2.
+    pose proof (j_own0 _ _ _ L IN2 IP) as A. pose proof (j_own0 _ _ _ G IN IP) as B. congruence.
+  - intros k r1. rewrite !aget_aremove. eqb_case k i; [discriminate|eauto].
+  - intros t r1 G EF. destruct (N.eq_dec (s_id r1) i) as [E|NE].
+    + exfalso. rewrite effective_ord in EF by auto. cbn [applied] in EF. rewrite E, aget_aput_eq in EF.
+      apply i_pend_tick0 in G. apply N.ltb_lt in EF. lia.
+    + erewrite effective_eq in EF by (cbn [applied]; apply aget_aput_neq; auto).
+      destruct (k_pend0 _ _ G EF) as (r' & GL & E). rewrite aget_aremove_neq; eauto.
+Qed.
+
+Lemma do_done_inv2 c s t : c_ordered c = true -> inv1 s -> inv2 c s -> inv2 c (fst (do_done c s t)).
+Proof.
+  intros O I1 I2. unfold do_done. destruct (aget t (pend s)) as [r|] eqn:P; auto.
+  assert (SUB : forall t' r', aget t' (aremove t (pend s)) = Some r' -> aget t' (pend s) = Some r' /\ t' <> t).
+  { intros t' r'. rewrite aget_aremove. eqb_case t' t; [discriminate|auto]. }
+  destruct I1, I2.
+  destruct (effective c s (s_id r) t) eqn:EF; cbn [fst].
+  - constructor; cbn [store live pend leases applied]; auto.
+    + intros k r1. rewrite aget_aput. eqb_case k (s_id r); [|eauto]. intros H. inversion H; subst. eauto.
+    + intros t' r1 G EF'. apply SUB in G. destruct G as (G & NE). apply (k_pend0 _ _ G).
+      rewrite effective_ord in * by auto. cbn [applied] in EF'. rewrite aget_aput in EF'.
+      eqb_case (s_id r1) (s_id r); [|auto]. rewrite E. destruct (aget (s_id r) (applied s)); auto.
+      apply N.ltb_lt in EF, EF'. apply N.ltb_lt. lia.
+  - constructor; cbn [store live pend leases applied]; auto.
+    intros t' r1 G EF'. apply SUB in G. destruct G as (G & NE). apply (k_pend0 _ _ G).
+    erewrite effective_eq in EF' by reflexivity. auto.
+Qed.
+
+(* ---- effect of one restore step on store / pend / live ---- *)
+Lemma amem_aput {V} k k' (v : V) l : amem k l = true -> amem k (aput k' v l) = true.
+Proof. unfold amem. rewrite aget_aput. destruct (N.eqb k k'); auto. Qed.
+Lemma amem_aput_eq {V} k (v : V) l : amem k (aput k v l) = true.
+Proof. unfold amem. rewrite aget_aput_eq. auto. Qed.
+
+Lemma restore_one_effect c now f cause store0 s lg k :
+  (forall k r, aget k store0 = Some r -> s_id r = k) ->
+  let s' := fst (restore_one c now f cause store0 (s, lg) k) in
+  (aget k store0 = None -> s' = s) /\
+  (forall k', k' <> k -> aget k' (store s') = aget k' (store s)) /\
+  (forall r0 r, aget k store0 = Some r0 -> aget k (store s') = Some r ->
+     amem k (live s') = true /\ (aget k (store s) = Some r \/ addrs r = addrs r0)) /\
+  (forall t r, aget t (pend s') = Some r ->
+     aget t (pend s) = Some r \/
+     (exists r0, aget k store0 = Some r0 /\ addrs r = addrs r0 /\ s_id r = k /\ amem k (live s') = true)) /\
+  (forall k', amem k' (live s) = true -> amem k' (live s') = true).
+Proof.
+  intros IDS s'. unfold s', restore_one.
+  destruct (aget k store0) as [r|] eqn:G.
+  2:{ cbn [fst]. repeat split; auto; intros; discriminate. }
+  split; [discriminate|].
+  destruct (expired c now r).
+  { cbn [fst upd_store store pend live]. repeat split; auto.
+    - intros; apply aget_aremove_neq; auto.
+    - rewrite aget_aremove_eq in H0. discriminate.
+    - rewrite aget_aremove_eq in H0. discriminate. }
+  destruct (match c_proto c with IPoE => s_appr r && negb (s_crea r) | PPPoE => false end).
+  { cbn [fst install upd_store store pend live]. repeat split; auto.
+    - intros; apply aget_aput_neq; auto.
+    - apply amem_aput_eq.
+    - rewrite aget_aput_eq in H0. inversion H; subst. inversion H0; subst. right. auto.
+    - intros; apply amem_aput; auto. }
+  destruct (replayed c r).
+  2:{ cbn [fst install store pend live]. repeat split; auto.
+      - apply amem_aput_eq.
+      - intros; apply amem_aput; auto. }
+  destruct (match f with Some f0 => f0 =? k | None => false end).
+  { cbn [fst install store pend live]. repeat split; auto.
+    - apply amem_aput_eq.
+    - intros; apply amem_aput; auto. }
+  destruct (dp_add k (dp (install c s k r)) (dpnext (install c s k r))) as [[sw d1] nx1].
+  cbn [fst install store pend live]. repeat split; auto.
+  - apply amem_aput_eq.
+  - intros t r1 H. apply aget_snoc in H. destruct H as [H|[_ H]]; auto. right. subst r1.
+    exists r. rewrite set_prog_addrs, set_prog_id. repeat split; auto. apply amem_aput_eq.
+  - intros; apply amem_aput, amem_aput; auto.
+Qed.
+
+Record rinv (store0 : list (N * sess)) (ks : list N) (s : st) : Prop := {
+  r_store : forall k r, aget k (store s) = Some r -> exists r0, aget k store0 = Some r0 /\ addrs r = addrs r0;
+  r_pend : forall t r, aget t (pend s) = Some r ->
+             exists r0, aget (s_id r) store0 = Some r0 /\ addrs r = addrs r0 /\ amem (s_id r) (live s) = true;
+  r_cover : forall k r, aget k (store s) = Some r -> amem k (live s) = true \/ In k ks }.
+
+Lemma restore_fold_rinv c now f cause store0 ks : forall s lg,
+  (forall k r, aget k store0 = Some r -> s_id r = k) ->
+  rinv store0 ks s ->
+  rinv store0 [] (fst (fold_left (restore_one c now f cause store0) ks (s, lg))).
+Proof.
+  induction ks as [|k ks IH]; intros s lg IDS RI; cbn [fold_left]; auto.
+  destruct (restore_one_effect c now f cause store0 s lg k IDS) as (E0 & E1 & E2 & E3 & E4).
+  destruct (restore_one c now f cause store0 (s, lg) k) as [s1 lg1] eqn:R1. cbn [fst] in *.
+  apply IH; auto. destruct RI. constructor.
+  - intros k0 r G. destruct (N.eq_dec k0 k) as [E|NE].
+    + subst k0. destruct (aget k store0) as [r0|] eqn:G0.
+      * destruct (E2 r0 r eq_refl G) as (_ & [H|H]); eauto. destruct (r_store0 _ _ H) as (r0' & A & B).
+        rewrite G0 in A. inversion A; subst. eauto.
+      * rewrite (E0 eq_refl) in G. destruct (r_store0 _ _ G) as (r0' & A & B). congruence.
+    + rewrite E1 in G; auto.
+  - intros t r G. destruct (E3 _ _ G) as [H|(r0 & A & B & C & D)].
+    + destruct (r_pend0 _ _ H) as (r0 & A & B & C). eauto.
+    + subst k. eauto.
+  - intros k0 r G. destruct (N.eq_dec k0 k) as [E|NE].
+    + subst k0. destruct (aget k store0) as [r0|] eqn:G0.
+      * destruct (E2 r0 r eq_refl G) as (M & _). auto.
+      * rewrite (E0 eq_refl) in G. destruct (r_store0 _ _ G) as (r0' & A & B). congruence.
+    + rewrite E1 in G; auto. destruct (r_cover0 _ _ G) as [H|[H|H]]; auto; congruence.
+Qed.
+
+Lemma inv2_disjoint c s : inv2 c s -> disjoint_images c (store s).
+Proof.
+  intros [] k k' r r' ad G G' IN IN' IP.
+  destruct (k_store0 _ _ G) as (r1 & L1 & E1). destruct (k_store0 _ _ G') as (r2 & L2 & E2).
+  rewrite <- E1 in IN. rewrite <- E2 in IN'.
+  pose proof (j_own0 _ _ _ L1 IN IP). pose proof (j_own0 _ _ _ L2 IN' IP). congruence.
+Qed.
+
+Lemma do_crash_inv2 c s (p : bool) f now :
+  reserves c -> inv1 s -> inv2 c s -> inv2 c (fst (do_crash c s p f now)).
+Proof.
+  intros RS I1 I2. pose proof (inv2_disjoint c s I2) as DJ.
+  assert (IDS : forall k r, aget k (store s) = Some r -> s_id r = k) by (destruct I1; auto).
+  unfold do_crash.
+  match goal with |- context [fold_left (restore_one c now f ?CA (store s)) ?L (?S0, ?LG)] =>
+    pose proof (restore_fold_linv c now f CA (store s) L S0 LG RS DJ) as HL;
+    pose proof (restore_fold_rinv c now f CA (store s) L S0 LG IDS) as HR end.
+  destruct (fold_left _ _ _) as [s1 lg]. cbn [fst] in *.
+  assert (LI : linv c (store s) s1).
+  { apply HL. constructor; cbn [live leases]; intros; discriminate. }
+  assert (RI : rinv (store s) [] s1).
+  { apply HR. constructor; cbn [store pend live].
+    - intros k r G. eauto.
+    - intros; discriminate.
+    - intros k r G. right. apply isort_In. eapply aget_In; eauto. }
+  clear HL HR. destruct LI, RI. constructor.
+  - auto.
+  - intros k r G. destruct (r_store0 _ _ G) as (r0 & A & B).
+    destruct (r_cover0 _ _ G) as [M|[]]. unfold amem in M.
+    destruct (aget k (live s1)) as [r'|] eqn:GL; try discriminate.
+    destruct (l_live0 _ _ GL) as (r0' & A' & B'). exists r'. split; auto. congruence.
+  - intros t r G _. destruct (r_pend0 _ _ G) as (r0 & A & B & M). unfold amem in M.
+    destruct (aget (s_id r) (live s1)) as [r'|] eqn:GL; try discriminate.
+    destruct (l_live0 _ _ GL) as (r0' & A' & B'). exists r'. split; auto. congruence.
+Qed.
+
+Lemma step_inv12 c s o s' out :
+  c_ordered c = true -> reserves c -> pools_small c ->
+  inv1 s /\ inv2 c s -> step c s o = Some (s', out) -> inv1 s' /\ inv2 c s'.
+Proof.
+  intros O RS PS (I1 & I2) H. split; [eapply step_inv1; eauto|].
+  destruct o; cbn [step] in H.
+  - eapply do_new_inv2; eauto.
+  - inversion H. change s' with (fst (s', out)). rewrite <- H1. apply do_ck_inv2; auto.
+  - inversion H. change s' with (fst (s', out)). rewrite <- H1. apply do_cks_inv2; auto.
+  - inversion H. change s' with (fst (s', out)). rewrite <- H1. apply do_rel_inv2; auto.
+  - inversion H. change s' with (fst (s', out)). rewrite <- H1. apply do_done_inv2; auto.
+  - inversion H. change s' with (fst (s', out)). rewrite <- H1. apply do_crash_inv2; auto.
+Qed.
+
+(* T3 in full *)
+Lemma reserved_before_alloc c ops s :
+  c_ordered c = true -> reserves c -> pools_small c -> run c init ops = Some s ->
+  (forall k r ad, aget k (live s) = Some r -> In ad (addrs r) -> inpool c ad = true ->
+                  aget ad (leases s) = Some k) /\
+  (forall fam a, fam < 3 -> alloc_ok c (leases s) fam (Some a) = true ->
+                 forall k r, aget k (live s) = Some r -> ~ In (code fam a) (addrs r)) /\
+  (forall k k' r r' ad, aget k (live s) = Some r -> aget k' (live s) = Some r' ->
+                 In ad (addrs r) -> In ad (addrs r') -> inpool c ad = true -> k = k').
+Proof.
+  intros O RS PS R.
+  assert (I : inv1 s /\ inv2 c s).
+  { eapply (run_inv (fun s => inv1 s /\ inv2 c s) c); eauto.
+    - intros. eapply step_inv12; eauto.
+    - split; [apply inv1_init|apply inv2_init]. }
+  destruct I as (I1 & I2). split; [|split].
+  - apply (j_own _ _ I2).
+  - intros fam a F OK k r G IN. unfold alloc_ok in OK. apply andb_prop in OK. destruct OK as (A & B).
+    apply N.ltb_lt in A. pose proof (j_own _ _ I2 k r _ G IN (code_inpool c fam a F A)) as L.
+    unfold amem in B. rewrite L in B. discriminate.
+  - intros k k' r r' ad G G' IN IN' IP.
+    pose proof (j_own _ _ I2 _ _ _ G IN IP). pose proof (j_own _ _ I2 _ _ _ G' IN' IP). congruence.
+Qed.
